@@ -65,7 +65,7 @@ def gen(rnd):
         files['classes/c0.yaml'] = 'buildScript: |\n  echo from-class-c0\npackageScript: |\n  echo pkg-from-class\n'
         for nm in rnd.sample(sorted(R), rnd.randint(1, len(R))): R[nm]['inherit'] = ['c0']
     if rnd.random() < .6:
-        R['tool'] = {'buildScript': 'echo tool\n', 'packageScript': 'mkdir -p bin lib; echo tool\n', 'provideTools': {'gen': {'path': 'bin', 'libs': ['lib']}}}
+        R['tool'] = {'buildScript': 'echo tool\n', 'packageScript': 'mkdir -p bin lib lib64; echo tool\n', 'provideTools': {'gen': {'path': 'bin', 'libs': ['lib', 'lib64']}}}
         for nm in rnd.sample([x for x in sorted(R) if x != 'tool'], rnd.randint(1, 2)):
             R[nm].setdefault('depends', []).append({'name': 'tool', 'use': ['tools']})
             R[nm][rnd.choice(['buildTools', 'packageTools', 'buildToolsWeak'])] = ['gen']
@@ -119,7 +119,14 @@ def edits():
         n = users[0]; return n, (['build', 'dist'] if 'gen' in m['recipes'][n].get('buildTools', []) else ['dist'])
     def e_tool_libs(m, rnd):
         if 'tool' not in m['recipes']: return None, []
-        m['recipes']['tool']['provideTools']['gen']['libs'] = ['lib', 'lib64']
+        m['recipes']['tool']['provideTools']['gen']['libs'] = ['lib', 'lib64', 'lib32']
+        users = [n for n, r in sorted(m['recipes'].items()) if 'gen' in r.get('buildTools', []) + r.get('packageTools', [])]
+        if not users: return None, []
+        n = users[0]; return n, (['build', 'dist'] if 'gen' in m['recipes'][n].get('buildTools', []) else ['dist'])
+    def e_tool_libs_order(m, rnd):
+        if 'tool' not in m['recipes']: return None, []
+        t = m['recipes']['tool']
+        t['provideTools']['gen']['libs'] = ['lib64', 'lib']; t['packageScript'] = 'mkdir -p bin lib lib64; echo tool\n'
         users = [n for n, r in sorted(m['recipes'].items()) if 'gen' in r.get('buildTools', []) + r.get('packageTools', [])]
         if not users: return None, []
         n = users[0]; return n, (['build', 'dist'] if 'gen' in m['recipes'][n].get('buildTools', []) else ['dist'])
@@ -141,7 +148,7 @@ def edits():
         return n, ['src', 'build', 'dist']
     return [('build script', e_script), ('package script', e_pkg_script), ('checkout script', e_checkout_script), ('class script', e_class_script),
             ('buildSetup added', e_setup), ('value of a checkoutVars variable', e_var_value('src')), ('value of a buildVars variable', e_var_value('build')),
-            ('value of a packageVars variable', e_var_value('dist')), ('variable added to buildVars', e_var_list), ('tool path', e_tool_path), ('tool libs', e_tool_libs),
+            ('value of a packageVars variable', e_var_value('dist')), ('variable added to buildVars', e_var_list), ('tool path', e_tool_path), ('tool libs', e_tool_libs), ('tool libs order', e_tool_libs_order),
             ('order of two dependencies', e_dep), ('git branch', e_git('branch', 'other')), ('git tag', e_git('tag', 'v1')), ('git dir', e_git('dir', 'elsewhere')),
             ('git submodules', e_git('submodules', True)), ('git url', e_git('url', 'https://example.invalid/moved.git'))]
 
